@@ -7,9 +7,13 @@ RULE = ("real MemoryBackend driven operation by operation with bare clients, com
         "and every specification clause evaluated on the observed step; families: (targets) every filter pair of the 10-filter universe x 7 names "
         "x QoS triples, temporary/stored/clean sessions; (retained) every name pair x every filter x QoS pairs with delete and "
         "non-retained publishes, then resubscription; (exhaustive) every sequence of depth %s over a %s-operation alphabet "
-        "(subscribe, unsubscribe, publish retained/empty/plain, dequeue, terminate, resume, clean takeover) after a fixed two-client prefix, "
+        "(subscribe, unsubscribe, unsubscribe whose acknowledgement callback publishes, publish retained/empty/plain, dequeue, terminate, "
+        "resume, clean takeover) after a fixed two-client prefix, "
         "queue size 2; (random) seeded histories of 5..%s operations over 1-6 clients, ids {'',x,y,z}, queue sizes 1,2,3,100, SUBSCRIBE with "
-        "1-4 filters, takeovers with and without kill timeout, blocked publishes released by dequeues, backend Close. "
+        "1-4 filters, takeovers with and without kill timeout, blocked publishes released by dequeues, publishes from inside the "
+        "Unsubscribe acknowledgement, wills of closing connections, backend Close; black-box: scripted MQTT peers through broker.Engine over "
+        "net.Pipe (connect/subscribe/unsubscribe/publish QoS 0-2/disconnect/connection loss with will/takeover), deliveries between FIFO "
+        "markers compared with the model's queues. "
         "distinct_nontrivial = distinct (operation, result, number of sessions) classes")
 
 
